@@ -12,6 +12,7 @@ from .. import drive
 from ..gen import descriptions as G
 from ..indep import envmodel, mcbor
 from . import common, c10, signing
+from ..mon import faults
 
 ID = "C11"
 RULE = ("hierarchies to depth 3 built bottom-up from generated envelopes (unique payload names incl. regex "
@@ -119,6 +120,7 @@ def collect(E, path, dep, out_int, out_str):
         out_str[(path, k)] = v.val
 
 
+@faults.guarded()
 def run_cache(route, src, out_env, out_cache, eb, omit, dep, wd):
     try:
         if route == "cmd":
